@@ -240,7 +240,7 @@ PROPS = {
             {"kind": "gentrace", "module": "Gen_Bmoc", "cfg": {"quick": "Gen_Bmoc_cells.cfg", "thorough": "Gen_Bmoc_cells.cfg"}, "scenario": "BMOC",
              "trace_module": "Trace_Bmoc", "trace_cfg": "Trace_Bmoc.cfg", "exhaustive": True,
              "clauses": ["wellformed", "entries", "raw_encoding", "deep_size", "ranges", "flat", "operand_wellformed"]},
-            {"kind": "rec", "scenario": "C09", "count": {"quick": 4000, "thorough": 80000}, "trace_module": "Trace_Bmoc", "trace_cfg": "Trace_Bmoc.cfg",
+            {"kind": "rec", "scenario": "C09", "count": {"quick": 2500, "thorough": 80000}, "trace_module": "Trace_Bmoc", "trace_cfg": "Trace_Bmoc.cfg",
              "shards": 10, "clauses": ["wellformed", "entries", "raw_encoding", "deep_size", "ranges", "flat", "operand_wellformed"],
              "nontrivial": lambda ev: ev["ev"] in ("op", "view", "query", "fixed")},
         ],
